@@ -2,7 +2,9 @@ package props
 
 import (
 	"bytes"
+	"context"
 	"encoding/json"
+	"errors"
 	"fmt"
 	"os"
 	"os/exec"
@@ -249,6 +251,8 @@ func c14cliJudge(rep *vrtReport, blocks, diags []string, serialOut map[string]st
 	return "", out.String()
 }
 
+var errCLIHang = errors.New("the tool had not finished after 5 minutes under this schedule (an execution takes a fraction of a second): a worker does not return")
+
 func c14cliRun(bin, dir string, sc c14cliScenario, prefix []int, outFile string) (*vrtReport, error) {
 	parts := make([]string, len(prefix))
 	for i, p := range prefix {
@@ -256,7 +260,11 @@ func c14cliRun(bin, dir string, sc c14cliScenario, prefix []int, outFile string)
 	}
 	var se bytes.Buffer
 	for attempt := 0; ; attempt++ {
-		cmd := exec.Command(bin, sc.Args...)
+		// an execution takes a fraction of a second; five minutes without an end
+		// is a worker that never returns under this schedule
+		cctx, cancel := context.WithTimeout(context.Background(), 5*time.Minute)
+		defer cancel()
+		cmd := exec.CommandContext(cctx, bin, sc.Args...)
 		cmd.Dir = dir
 		cmd.Env = append(os.Environ(), "XV_SCHED_PREFIX="+strings.Join(parts, ","), "XV_SCHED_OUT="+outFile, "XV_SCHED_KEYS=1")
 		cmd.Stdin = strings.NewReader(sc.Stdin)
@@ -265,6 +273,9 @@ func c14cliRun(bin, dir string, sc c14cliScenario, prefix []int, outFile string)
 		err := cmd.Run()
 		if err == nil {
 			break
+		}
+		if cctx.Err() != nil {
+			return nil, errCLIHang
 		}
 		// a process that could not be started (machine resources) is retried; one
 		// that ran and failed is a result
@@ -406,6 +417,9 @@ func c14CLI(c *run.Check) {
 		var unsupported []string
 		ex.Exec = func(prefix []int) ([]sched.Point, string) {
 			rep, err := c14cliRun(bin, dir, sc, prefix, outFile)
+			if err == errCLIHang {
+				return nil, err.Error()
+			}
 			if err != nil {
 				return nil, "HARNESS: " + err.Error()
 			}
@@ -485,6 +499,8 @@ func c14CLI(c *run.Check) {
 			again := "?"
 			if err == nil {
 				again, _ = c14cliJudge(rep, blocks, diags, serialOut)
+			} else if err == errCLIHang {
+				again = err.Error()
 			}
 			if again == "" {
 				// a verdict that does not reproduce from its own schedule is not believed
